@@ -55,9 +55,11 @@ type Case struct {
 	Conc    int        `json:"conc,omitempty"`       // >0: that many extra goroutines push GOOD content for the same descriptor concurrently
 }
 
-var descMuts = []string{"exact", "exact", "exact", "wrongdigest", "neg1", "zero", "len-1", "len+1", "2len", "minint", "maxint",
+var descMuts = []string{"exact", "exact", "exact", "wrongdigest", "neg1", "zero", "len-1", "len+1", "2len", "huge", "minint", "maxint",
 	"empty-digest", "nocolon", "badhexlen", "upperhex", "md5", "hex63", "hex65"}
-var readerKinds = []string{"whole", "whole", "bytewise", "chunks", "zeroreads", "dataeof", "errat", "short", "long", "long", "corrupt"}
+// "bytesbuffer": the content sits in a *bytes.Buffer that the caller re-uses (resets
+// and refills) as soon as the push has returned
+var readerKinds = []string{"whole", "whole", "bytewise", "chunks", "zeroreads", "dataeof", "errat", "short", "long", "long", "corrupt", "bytesbuffer"}
 var sinks = []string{"readall", "fetchall", "verifyreader", "memory", "oci-storage", "oci-store", "file-named", "file-unnamed", "limit", "copygraph"}
 
 func genCase(t *rapid.T) Case {
@@ -258,6 +260,9 @@ func mutate(c Case, b []byte, mt string) (desc ocispec.Descriptor, valid bool) {
 		desc.Size = int64(len(b)) + 1
 	case "2len":
 		desc.Size = int64(2*len(b)) + 3
+	case "huge":
+		// right digest, a claimed size beyond any "read it all at once" threshold
+		desc.Size = 33<<20 + int64(len(b))
 	case "minint":
 		desc.Size = math.MinInt64
 		valid = false
@@ -535,7 +540,17 @@ func runStoreSink(ctx context.Context, c Case, desc ocispec.Descriptor, v verdic
 			}(g)
 		}
 	}
-	err := st.Push(ctx, pushDesc, mk())
+	var err error
+	if spec.Kind == "bytesbuffer" {
+		buf := bytes.NewBuffer(append([]byte(nil), b...))
+		err = st.Push(ctx, pushDesc, buf)
+		// the caller's buffer goes on to other uses: what the store holds must not change
+		buf.Reset()
+		buf.Write(bytes.Repeat([]byte{'#'}, len(b)+8))
+		res.Classes = append(res.Classes, "caller-reuses-its-bytes-buffer-after-push")
+	} else {
+		err = st.Push(ctx, pushDesc, mk())
+	}
 	wg.Wait()
 	goodNil := 0
 	if goodExists {
